@@ -112,6 +112,9 @@ class ArraySys(System):
         if colour == 'C':
             src = payload.other_dtype_source('C', 1, tr, dt)
             return src, np.asarray(src).astype(dt)
+        if colour == 'F':      # two rows, Fortran-contiguous (not C-contiguous when the trailing shape has > 1 element)
+            ref = payload.values('G', 2, tr, dt)
+            return np.asfortranarray(ref), ref
         if colour == 'Z':
             x = np.zeros((0,) + tr, dtype=dt)
             return x, x
@@ -144,7 +147,9 @@ class ArraySys(System):
         ops, disabled = [], 0
         grow = [(('append', 'A'), 1), (('append', 'B'), 2), (('append', 'C'), 1),
                 (('iterappend', 'list2'), 2), (('iterappend', 'gen1'), 1),
-                (('iterappend', 'ZA'), 1)]
+                (('iterappend', 'ZA'), 1), (('iterappend', 'Abad'), 1), (('iterappend', 'ctxAG'), 2)]
+        if self.trail:
+            grow.append((('append', 'F'), 2))
         if not self.trail:
             grow.append((('append', 'S'), 1))
             grow.append((('append', 'S0'), 1))
@@ -169,7 +174,7 @@ class ArraySys(System):
         if 'meta1' in self.features:
             ops += [('meta', 'set', 'a'), ('meta', 'del', 'a'), ('meta', 'change', 'a')]
         if 'recreate' in self.features:
-            ops += [('recreate', 'other'), ('recreate', 'meta'), ('recreate', 'same0')]
+            ops += [('recreate', 'other'), ('recreate', 'meta'), ('recreate', 'same0'), ('recreate', 'genmix')]
         if 'copy' in self.features:
             ops += [('copycheck',)]
         return ops, disabled
@@ -229,6 +234,7 @@ class ArraySys(System):
         mutating = True
         appendlike = False
         trunc_newlen = None
+        partial = False
 
         if kind in ('append', 'iterappend'):
             appendlike = True
@@ -250,13 +256,29 @@ class ArraySys(System):
                 elif spec == 'ZA':
                     cs = [self.chunk('Z'), self.chunk('A')]
                     it = iter([c[0] for c in cs])
+                elif spec == 'Abad':           # fails part-way: the completed chunk stays (C09), everything must be current
+                    cs = [self.chunk('A')]
+                    it = [cs[0][0], self.chunk('badtrail')[0], self.chunk('G')[0]]
+                    partial = True
+                elif spec == 'ctxAG':          # two appends inside one open_array() context
+                    cs = [self.chunk('A'), self.chunk('G')]
+                    it = None
                 refs = [c[1] for c in cs]
                 call = lambda: a.iterappend(it)
+                if spec == 'ctxAG':
+                    def call():
+                        with a.open_array():
+                            a.append(cs[0][0])
+                            a.append(cs[1][0])
             if kind == 'append' and op[1] == 'S0' and m.mode != 'r':
                 expect = 'either'
                 newarr = np.concatenate([m.arr] + refs).astype(self.dtype)
             elif m.mode == 'r' or any(r is None for r in refs):
                 expect = 'raises'
+                partial = False
+            elif partial:
+                expect = 'raises'
+                newarr = np.concatenate([m.arr] + refs).astype(self.dtype)
             else:
                 expect = 'returns'
                 if refs:
@@ -313,6 +335,14 @@ class ArraySys(System):
         label = what if what == 'returns' else f'raises:{exc_class(val)}'
         a = self.handles['a']
         opdesc = '/'.join(str(x) for x in op)
+        if 'format' in self.oracles:
+            # look at the files with the independent reader BEFORE any Darr handle touches them again (opening a
+            # too-short data file read-write makes NumPy zero-extend it, which would hide the inconsistency)
+            dec_now = self._decoded()
+            if dec_now[0] == 'undecodable':
+                V.append(viol('format', opdesc, pre, f'not decodable: {_cls(dec_now[1])}',
+                              f'directory is not self-describing right after {opdesc} in state [{pre}] ({label}): {dec_now[1]}'))
+                return StepResult(label, V, diverged=True)
 
         if kind == 'truncpath' and what == 'returns':
             # the by-path call used its own handle; the live one is allowed to be stale
@@ -324,7 +354,7 @@ class ArraySys(System):
                           exception=jsonable(val) if what == 'raises' else None))
             return StepResult(label, V, diverged=True)
 
-        if what == 'returns':
+        if what == 'returns' or partial:
             if kind == 'mode':
                 m.mode = op[1]
             m.arr = newarr
@@ -343,13 +373,13 @@ class ArraySys(System):
                           f'{vis[0]} {vis[1]}, model has {want[0]} {want[1]} (or bytes differ)',
                           got=vis[2][:64].hex(), expected=want[2][:64].hex()))
             return StepResult(label, V, diverged=True)
-        if what == 'raises' and mutating:
+        if what == 'raises' and mutating and not partial:
             if self._decoded() != dec0:
                 V.append(viol('model', opdesc, pre, 'on-disk state changed by rejected call',
                               f'{opdesc} in state [{pre}] raised but changed what a file reader sees'))
                 return StepResult(label, V, diverged=True)
         new_data = self._read_data()
-        if what == 'returns' and appendlike and not new_data.startswith(old_data):
+        if (what == 'returns' or partial) and appendlike and not new_data.startswith(old_data):
             V.append(viol('model', opdesc, pre, 'append changed previously stored bytes',
                           f'{opdesc} in state [{pre}]: old file content is not a prefix of the new one'))
             return StepResult(label, V, diverged=True)
@@ -415,15 +445,25 @@ class ArraySys(System):
         elif which == 'meta':
             ref = payload.values('H', 1, self.trail, self.dtype)
             meta = {'a': 'recreated'}
+        elif which == 'genmix':        # iterator whose later chunks have another item size: cast to the first chunk's dtype
+            first = payload.values('H', 1, self.trail, self.dtype)
+            wide = np.dtype('<f8') if self.dtype.itemsize != 8 else np.dtype('<f4')
+            later = payload.values('G', 2, self.trail, self.dtype).astype(wide)
+            ref = np.concatenate([first, later.astype(self.dtype)]).astype(self.dtype)
+            meta = None
+            src = iter([first, later])
         else:
             ref = np.zeros((0,) + self.trail, dtype=self.dtype)
             meta = None
-        what, val = outcome_of(lambda: darr.asarray(self.path, ref, metadata=meta, accessmode=m.mode,
+        arg = src if which == 'genmix' else ref
+        what, val = outcome_of(lambda: darr.asarray(self.path, arg, metadata=meta, accessmode=m.mode,
                                                     overwrite=True))
         label = what if what == 'returns' else f'raises:{exc_class(val)}'
         if what != 'returns':
-            return StepResult(label, [viol('create', opdesc, pre, label, f'asarray(overwrite=True) {label}')],
-                              diverged=True)
+            V = [viol('create', opdesc, pre, label, f'asarray(overwrite=True) {label}')]
+            if 'format' in self.oracles:      # whatever the failed call left behind must still be a self-describing array
+                V += self._format_vs_api(self.path, opdesc, 'after a failed re-creation')
+            return StepResult(label, V, diverged=True)
         self.handles['a'] = val
         m.arr = ref
         m.meta = dict(meta or {})
